@@ -563,17 +563,27 @@ def generate_policy(args=None):
 
 def _upgrade_policies(policies, default_policies):
     old_policies_keys = list(policies.keys())
+    upgraded_names = []
+    new_names = set()
     for section in sorted(default_policies.keys()):
         rule_defaults = default_policies[section]
         for rule_default in rule_defaults:
             if (rule_default.deprecated_rule and
                     rule_default.deprecated_rule.name in old_policies_keys):
-                policies[rule_default.name] = policies.pop(
-                    rule_default.deprecated_rule.name)
+                # A deprecated policy may have been split into several new
+                # ones: serve all of them before dropping the old name.
+                policies[rule_default.name] = policies[
+                    rule_default.deprecated_rule.name]
+                new_names.add(rule_default.name)
+                if rule_default.deprecated_rule.name not in upgraded_names:
+                    upgraded_names.append(rule_default.deprecated_rule.name)
                 LOG.info('The name of policy %(old_name)s has been upgraded to'
-                         '%(new_name)',
+                         '%(new_name)s',
                          {'old_name': rule_default.deprecated_rule.name,
                           'new_name': rule_default.name})
+    for old_name in upgraded_names:
+        if old_name not in new_names:
+            del policies[old_name]
 
 
 def upgrade_policy(args=None, conf=None):
